@@ -179,6 +179,31 @@ def _affine(fn, b):
     return hits
 
 
+def _affine_nf(ctx, ip):
+    """every element interpolate stores has the normal form  from_k + t * to_k - t * from_k  (a convex combination for t in
+    [0, 1]), by value numbering over polynomial normal forms (oxa/symval.py)"""
+    try:
+        from ..symval import Poly
+        from ..symrules import analyze, opaque
+        tpar = [i for i in range(1, ip.arg_count + 1) if ip.local_ty(i) == 'f64']
+        outp = [i for i in range(1, ip.arg_count + 1) if ip.local_ty(i).startswith('&mut ')]
+        ends = [i for i in range(2, ip.arg_count + 1) if i not in tpar and i not in outp]
+        if len(tpar) != 1 or len(outp) != 1 or len(ends) != 2:
+            return False
+        res, _ = analyze(ctx, ip)
+        outs = {k[2:]: v for k, v in res.items() if k[0] == 'out' and k[1] == outp[0]}
+        if not outs or any(opaque(v) for v in outs.values()):
+            return False
+        t = Poly.atom(('leaf', tpar[0], ()))
+        for path, v in outs.items():
+            a, b = Poly.atom(('leaf', ends[0], path)), Poly.atom(('leaf', ends[1], path))
+            if v != a + t * b - t * a:
+                return False
+        return True
+    except Exception:       # noqa
+        return False
+
+
 def _cval(ts):
     """float value of a constant term (literals, PI, products / negations of constants), else None"""
     c = const_float(ts)
@@ -293,6 +318,8 @@ def _convex(ctx, r):
             n['box'] += 1
             hits = _affine(ctx.fn(ip), ip)
             ok = hits >= 1
+            if not ok:
+                ok = _affine_nf(ctx, ip)       # second prover: the stored normal form is (1 - t) * from + t * to
             r.inst('%s: interpolation is component-wise from + (to - from) * t: boxes are closed under it' % name, ok=ok, site=ip.loc(0))
             if not ok:
                 r.violations.append(Violation('C04', 'C04.convex', ip.path, 'box-affine',
